@@ -74,11 +74,56 @@ pub fn run(input: &Value) -> Case {
         let dests = vusizes(&input["dests"]);
         let orig = if input["orig"].is_null() { None } else { Some(vbytes(&input["orig"])) };
         let (t2, s2, d2) = (text.clone(), sched.clone(), dests.clone());
+        let tail: Option<(usize, u64)> = if input["tail"].is_object() {
+            Some((input["tail"]["after"].as_u64().unwrap_or(0) as usize, input["tail"]["how"].as_u64().unwrap_or(0)))
+        } else {
+            None
+        };
+        let left = orig.as_ref().map(|o| o.len()).unwrap_or(0);
         let r = catch(move || -> Result<Vec<u8>, Vec<u8>> {
             let mut dec = Base64Decoder::new(SchedReader { data: t2, pos: 0, sched: s2, k: 0 });
             let mut acc = vec![];
             let mut k = 0usize;
             loop {
+                // two-step consumption: after `after` calls of read the rest goes through one of the conveniences of
+                // std::io::Read that sit on top of read (and that an implementation may override)
+                if let Some((after, how)) = tail {
+                    if k == after {
+                        let r = match how {
+                            0 => dec.read_to_end(&mut acc).map(|_| ()),
+                            1 => {
+                                let mut r = Ok(());
+                                for b in dec.by_ref().bytes() {
+                                    match b {
+                                        Ok(b) => acc.push(b),
+                                        Err(e) => {
+                                            r = Err(e);
+                                            break;
+                                        }
+                                    }
+                                }
+                                r
+                            }
+                            2 => dec.by_ref().take(u64::MAX).read_to_end(&mut acc).map(|_| ()),
+                            _ => {
+                                // read_exact of what is left according to the reference decoding, then read_to_end
+                                let want = left.saturating_sub(acc.len()).min(40);
+                                let mut buf = vec![0u8; want];
+                                match dec.read_exact(&mut buf) {
+                                    Ok(()) => {
+                                        acc.extend_from_slice(&buf);
+                                        dec.read_to_end(&mut acc).map(|_| ())
+                                    }
+                                    Err(e) => Err(e),
+                                }
+                            }
+                        };
+                        return match r {
+                            Ok(()) => Ok(acc),
+                            Err(_) => Err(acc),
+                        };
+                    }
+                }
                 let d = if d2.is_empty() { 64 } else { d2[k % d2.len()].max(1) };
                 k += 1;
                 let mut buf = vec![0u8; d];
@@ -101,7 +146,8 @@ pub fn run(input: &Value) -> Case {
         };
         Case {
             coq: format!(
-                "Dec {} {} {} {} {}",
+                "{} {} {} {} {} {}",
+                if tail.is_some() { "DecTail" } else { "Dec" },
                 copt(orig.as_ref().map(|o| cbytes(o))),
                 cbytes(&text),
                 cnums(&sched),
@@ -114,6 +160,11 @@ pub fn run(input: &Value) -> Case {
                 restag.into(),
                 format!("dec.shortreads={}", short),
                 format!("dec.len%4={}", text.len() % 4),
+                format!("dec.tail={}", match tail {
+                    None => "read-only".to_string(),
+                    Some((after, how)) => format!("{}-after-{}", ["read_to_end", "bytes", "take.read_to_end", "read_exact+read_to_end"][how as usize % 4],
+                                                  if after == 0 { "0-reads" } else { "reads" }),
+                }),
             ],
             nontrivial: short && text.len() >= 4,
         }
@@ -173,6 +224,16 @@ fn gen_dests(rng: &mut Rng) -> Vec<usize> {
     }
 }
 
+/// after how many `read` calls the rest is taken through read_to_end / bytes() / take().read_to_end / read_exact
+fn gen_tail(rng: &mut Rng) -> Value {
+    let after = match rng.below(6) {
+        0 => 0,
+        1 | 2 => 1,
+        _ => 1 + rng.below(6),
+    };
+    json!({"after": after, "how": rng.below(4)})
+}
+
 pub fn generate(rng: &mut Rng, n: usize, _tier: &str) -> Vec<Value> {
     let mut v = vec![];
     // fixed part: every length 0..=9 with the all-ones schedule and 1-byte destinations
@@ -181,6 +242,12 @@ pub fn generate(rng: &mut Rng, n: usize, _tier: &str) -> Vec<Value> {
         v.push(json!({"kind":"enc","chunks": x.iter().map(|b| jbytes(&[*b])).collect::<Vec<_>>()}));
         let t = ref_encode(&x);
         v.push(json!({"kind":"dec","orig":jbytes(&x),"text":jbytes(&t),"sched":vec![1;t.len()+2],"dests":[1]}));
+    }
+    // a header sniffed with read, the rest with read_to_end (and the other conveniences)
+    for (len, d, how) in [(100usize, 5usize, 0u64), (200, 63, 0), (70, 64, 2), (30, 1, 1), (90, 7, 3), (64, 10, 0)] {
+        let x: Vec<u8> = (0..len).map(|i| (i * 29 + 3) as u8).collect();
+        let t = ref_encode(&x);
+        v.push(json!({"kind":"dec","orig":jbytes(&x),"text":jbytes(&t),"sched":Vec::<usize>::new(),"dests":[d],"tail":{"after":1,"how":how}}));
     }
     while v.len() < n {
         match rng.below(10) {
@@ -196,7 +263,11 @@ pub fn generate(rng: &mut Rng, n: usize, _tier: &str) -> Vec<Value> {
                 let t = ref_encode(&x);
                 let sched = gen_sched(rng, t.len());
                 let dests = gen_dests(rng);
-                v.push(json!({"kind":"dec","orig":jbytes(&x),"text":jbytes(&t),"sched":sched,"dests":dests}));
+                let mut c = json!({"kind":"dec","orig":jbytes(&x),"text":jbytes(&t),"sched":sched,"dests":dests});
+                if rng.chance(1, 3) {
+                    c["tail"] = gen_tail(rng);
+                }
+                v.push(c);
             }
             _ => {
                 // malformed stream: truncated / garbage / padding in odd places
@@ -226,7 +297,11 @@ pub fn generate(rng: &mut Rng, n: usize, _tier: &str) -> Vec<Value> {
                 }
                 let sched = gen_sched(rng, t.len());
                 let dests = gen_dests(rng);
-                v.push(json!({"kind":"dec","orig":Value::Null,"text":jbytes(&t),"sched":sched,"dests":dests}));
+                let mut c = json!({"kind":"dec","orig":Value::Null,"text":jbytes(&t),"sched":sched,"dests":dests});
+                if rng.chance(1, 4) {
+                    c["tail"] = gen_tail(rng);
+                }
+                v.push(c);
             }
         }
     }
